@@ -61,6 +61,15 @@ func init() {
 	register(&Property{ID: "C10", Level: "exploration", World: c10World, Replay: func(p *Plan) *Violation { return c10Exec(p, nil) },
 		Worlds: map[string]int{"quick": 2500, "thorough": 12000}, Batch: map[string]int{"quick": 1, "thorough": 4},
 		Rule: "worlds = command-heavy generated program x handler shapes (raw pre-filled / buffered / unbuffered channel, converted func(), func() error, func() chan error, func() <-chan error, typed and variadic parameters) x completion schedule per invocation (immediate, after 0-4 polls, nil or error) x host ops between polls (writes, clock advances) x <<wait n>> polled 1ns/1us before and after its deadline, all inside a testing/synctest bubble; each world is run again under another completion schedule and the two real traces are compared; non-trivial = >=1 invocation or wait and >=1 poll while pending; distinct by hash of (program, ops)"})
+	register(&Property{ID: "C07", Level: "fault_enumeration", World: c07World, Replay: func(p *Plan) *Violation { return c07Exec(p, nil) },
+		Worlds: map[string]int{"quick": 500, "thorough": 2500}, Batch: map[string]int{"quick": 1, "thorough": 4},
+		Rule: "worlds = multi-node generated program with jumps, variables, rendered visit counts, options, commands; an original run of 2-12 host steps in which EVERY step is a save point (snapshot + deep copy; immutability re-checked after every later op); a case is one crash/restore experiment (save point k, crash point c, receiver state: fresh / ready / choosing / pending / ended / sibling path / restored before, optionally a second receiver of the same snapshot, or a bogus snapshot) compared op by op (responses, variables, side effects, snapshots) against a reference runner replaying the original up to that node entry; non-trivial = snapshot with >=1 variable and >=1 non-zero visit count restored into a non-fresh receiver; distinct by hash of (program, original ops, experiment)"})
+	register(&Property{ID: "C11", Level: "exploration", World: c11World, Replay: func(p *Plan) *Violation { return c11Exec(p, nil) },
+		Worlds: map[string]int{"quick": 2500, "thorough": 12000}, Batch: map[string]int{"quick": 1, "thorough": 4},
+		Rule: "worlds = jump-heavy generated program (self-loops, cycles, jumps out of nested option/if bodies, jumps by expression, any subset of nodes tracking: never/always) whose nodes start with an entry probe and whose lines render visited_count/visited for every node and two non-node names x a host schedule of 3-24 steps with snapshots and restores; expected counters are derived from the real run's own entry-probe log; non-trivial = >=2 jumps executed; distinct by hash of (program, ops)"})
+	register(&Property{ID: "C12", Level: "exploration", World: c12World, Replay: func(p *Plan) *Violation { return c12Exec(p, nil) },
+		Worlds: map[string]int{"quick": 2500, "thorough": 12000}, Batch: map[string]int{"quick": 1, "thorough": 4},
+		Rule: "worlds = generated program with <<stop>> at any depth, option groups with empty bodies at the tail, commands, calls and sets queued behind the end x a path to the first end x 1-8 further calls with in-range, out-of-range, negative and huge arguments interleaved with host writes, clock advances and releases, optionally followed by a restore and a second round; non-trivial = >=2 post-end calls, one with a non-zero argument, on a program with a stop or an option group; distinct by hash of (program, path, post-end schedule, round)"})
 }
 
 // capTB lets rapid.Check report into the harness instead of failing the test.
